@@ -17,6 +17,7 @@ type failDB struct {
 	mu    sync.Mutex
 	armed bool
 	fired bool
+	hook  func() // when set: called before every Put of a read-write transaction started through Update (see race.go)
 }
 
 var errCommit = errors.New("verif: injected commit failure")
@@ -76,7 +77,14 @@ func (d *failDB) Update(f func(tx walletdb.ReadWriteTx) error, reset func()) err
 			_ = tx.Rollback()
 		}
 	}()
-	err = f(tx)
+	d.mu.Lock()
+	hook := d.hook
+	d.mu.Unlock()
+	if hook != nil {
+		err = f(&hookTx{ReadWriteTx: tx, hook: hook})
+	} else {
+		err = f(tx)
+	}
 	finished = true
 	if err != nil {
 		_ = tx.Rollback()
@@ -100,4 +108,70 @@ func (t *failTx) Commit() error {
 		return errCommit
 	}
 	return t.ReadWriteTx.Commit()
+}
+
+func (d *failDB) setHook(h func()) {
+	d.mu.Lock()
+	d.hook = h
+	d.mu.Unlock()
+}
+
+// hookTx / hookBucket: a transparent view of the real bdb transaction that calls `hook` before every Put (the real
+// transaction does the work; OnCommit, cursors, sequences are the real ones).
+type hookTx struct {
+	walletdb.ReadWriteTx
+	hook func()
+}
+
+func (t *hookTx) ReadWriteBucket(key []byte) walletdb.ReadWriteBucket {
+	b := t.ReadWriteTx.ReadWriteBucket(key)
+	if b == nil {
+		return nil
+	}
+	return &hookBucket{ReadWriteBucket: b, hook: t.hook}
+}
+
+type hookBucket struct {
+	walletdb.ReadWriteBucket
+	hook func()
+}
+
+func (b *hookBucket) wrap(n walletdb.ReadWriteBucket) walletdb.ReadWriteBucket {
+	if n == nil {
+		return nil
+	}
+	return &hookBucket{ReadWriteBucket: n, hook: b.hook}
+}
+
+func (b *hookBucket) NestedReadWriteBucket(key []byte) walletdb.ReadWriteBucket {
+	return b.wrap(b.ReadWriteBucket.NestedReadWriteBucket(key))
+}
+
+func (b *hookBucket) NestedReadBucket(key []byte) walletdb.ReadBucket {
+	n := b.ReadWriteBucket.NestedReadWriteBucket(key)
+	if n == nil {
+		return nil
+	}
+	return &hookBucket{ReadWriteBucket: n, hook: b.hook}
+}
+
+func (b *hookBucket) CreateBucket(key []byte) (walletdb.ReadWriteBucket, error) {
+	n, err := b.ReadWriteBucket.CreateBucket(key)
+	if err != nil {
+		return nil, err
+	}
+	return b.wrap(n), nil
+}
+
+func (b *hookBucket) CreateBucketIfNotExists(key []byte) (walletdb.ReadWriteBucket, error) {
+	n, err := b.ReadWriteBucket.CreateBucketIfNotExists(key)
+	if err != nil {
+		return nil, err
+	}
+	return b.wrap(n), nil
+}
+
+func (b *hookBucket) Put(key, value []byte) error {
+	b.hook()
+	return b.ReadWriteBucket.Put(key, value)
 }
